@@ -22,6 +22,8 @@ def verdict(raw, now_s, days):
         return 'keep'
     real = _real()
     now = real.strptime(now_s[:19], '%Y-%m-%dT%H:%M:%S')
+    if len(now_s) > 20 and now_s[19] == '.':
+        now = now + datetime.timedelta(microseconds=int(now_s[20:26].ljust(6, '0')))          # the clock has sub-second resolution, DeletionDate has not
     try:
         limit = now - datetime.timedelta(days=days)
     except OverflowError:
